@@ -85,7 +85,13 @@ def processLine (line : String) : String :=
       let liveSame := !(has j "liveBefore") || str j "liveBefore" == str j "liveAfter"
       if outcome != "applied" && !liveSame then
         s!"PROP C18 failed-change-altered-running-config case={c} variant={variant} outcome={outcome} before={str j "liveBefore"} after={str j "liveAfter"}"
-      else if outcome == "rejected" || outcome == "error" then
+      else if outcome == "error" then
+        -- the replacement itself failed (here: the temp file vanished before the rename): the old content must still be there
+        if optStr fin "target" != old then s!"PROP C18 failed-replacement-lost-the-old-content case={c} variant={variant}"
+        else if points.any (fun p => optStr p "target" != old) then s!"PROP C18 failed-replacement-exposed-other-content case={c} variant={variant}"
+        else if (variant.splitOn ".").getD 1 "" == "rename_fails" && points.isEmpty then s!"DIVERGE file case={c} variant={variant}: no hook point observed"
+        else "ok"
+      else if outcome == "rejected" then
         if points.isEmpty && optStr fin "target" == old && (strs fin "temps").isEmpty then "ok"
         else s!"PROP C18 rejected-change-touched-file case={c} variant={variant}"
       else
